@@ -19,6 +19,10 @@ def wsub (a b : Nat) : Nat := if b ≤ a then a - b else 2^64 + a - b
 def wadd (a b : Nat) : Nat := (a + b) % 2^64
 /-- `a * b` on `size_t` -/
 def wmul (a b : Nat) : Nat := (a * b) % 2^64
+/-- `a << b` on `size_t` (the bits shifted out are lost) -/
+def wshl (a b : Nat) : Nat := (a <<< b) % 2^64
+/-- `~a` on `size_t` -/
+def wnot (a : Nat) : Nat := 2^64 - 1 - a % 2^64
 /-- `(size_t) i` for an `int` (also the implicit conversion when an `int` meets a `size_t`) -/
 def castSizeT (i : Int) : Nat := (i % 2^64).toNat
 /-- the value is representable in `int` (otherwise the signed operation overflowed: undefined) -/
